@@ -500,6 +500,33 @@ def partial_op_obligations(ctx, rep, rule: str, funcs: List[Tuple[object, object
         for s in sites:
             n_sites += 1
             ok, why, nontrivial = discharge(ctx, s, paths.get(id(s.node)), acc, use_accept, taint)
+            if not ok and concrete is not None and func.name not in ("handle", "canhandlerequest", "__init__"):
+                # a helper that works on what its caller hands it: decide the site on the paths through its callers
+                callers = []
+                for c_ in prog.mro(concrete):
+                    for m_ in c_.methods.values():
+                        if m_ is func or prog.resolve_method(concrete, m_.name) is not m_:
+                            continue
+                        if any(t_.kind == "repo" and func in t_.funcs for _c, t_ in eff.calls_of(m_, concrete)):
+                            callers.append(m_)
+                if callers and len(callers) <= 3:
+                    all_ok, whys = True, []
+                    for m_ in callers:
+                        ua = False
+                        if m_.name not in PRE_ACCEPT:
+                            ua = not _reachable_from_pre(prog, eff, concrete, m_)
+                        try:
+                            cp = collect_site_paths(prog, ctx.resolver, m_, concrete, {id(s.node)}, inline=lambda fn, t, d, _f=func: fn is _f,
+                                                    fork_returns=m_.name == "canhandlerequest")
+                        except Exception:
+                            all_ok = False
+                            break
+                        acc_ = accept_paths(prog, ctx.resolver, concrete) if ua else None
+                        ok2, why2, _nt = discharge(ctx, s, cp.get(id(s.node)), acc_, ua, taint)
+                        all_ok = all_ok and ok2
+                        whys.append(why2)
+                    if all_ok:
+                        ok, why = True, "on every path through its caller(s): " + "; ".join(sorted(set(whys)))[:120]
             owner = f"{concrete.name}:" if concrete is not None and func.cls is not None and concrete is not func.cls else ""
             rep.add(rule, f"{s.kind} {owner}{func.qualname}: {s.text[:70]}", ok, ctx.where(func, s.node),
                     (f"{RAISES[s.kind]} possible for some {'file content' if content else 'request'}: `{s.text}` - {why}" if not ok else why),
